@@ -1001,6 +1001,10 @@ func TestVerifC17(t *testing.T) {
 				if m.st {
 					c.Status = sev1alpha1.PodMigrationJobConditionStatusTrue
 				}
+				if m.reason == sev1alpha1.PodMigrationJobReasonFailedCreateReservation {
+					// the text the controller itself writes for the (only) create error of this harness
+					c.Message = fmt.Sprintf("Failed to create Reservation caused by %v", c17ErrInjected)
+				}
 				if _, old := utilGetCond(&st, c.Type); old == nil {
 					st.Conditions = append(st.Conditions, c)
 				}
